@@ -124,7 +124,7 @@ def _to_float(v):
         if "/" in v:
             a, b = v.split("/")
             return int(a) / int(b)
-        return float(v.rstrip("?"))
+        return float(v.rstrip("?"))  # also decimal renderings of very long rationals
     return v
 
 
@@ -208,6 +208,9 @@ class ConcreteCtx:
 
     def note(self, s):
         self.notes.append(s)
+
+    def simp(self, x):
+        return x
 
 
 def run_concrete(fn, params: dict, model: dict):
